@@ -34,7 +34,7 @@ func (gc *gateCtx) lcOfSNick(e ast.Expr) bool {
 		return false
 	}
 	fn := astx.Callee(gc.info, call)
-	if fn == nil || fn.Name() != "NickToLower" {
+	if fn == nil || fname(fn) != "NickToLower" {
 		return false
 	}
 	se, ok := ast.Unparen(call.Args[0]).(*ast.SelectorExpr)
@@ -60,7 +60,11 @@ func (gc *gateCtx) isChanopConst(e ast.Expr) bool {
 		return false
 	}
 	id, isID := ast.Unparen(e).(*ast.Ident)
-	return isID && id.Name == "chanop"
+	if !isID {
+		return false
+	}
+	k, isConst := astx.Obj(gc.info, id).(*types.Const)
+	return isConst && k.Pkg() != nil && k.Pkg().Path() == pathIrcsrv
 }
 
 // chanop: ch.nicks[lc(s.Nick)][chanop] or perms[chanop] with perms := ch.nicks[lc(s.Nick)]
@@ -230,7 +234,7 @@ func c13(c *Ctx) {
 						if b := astx.BaseIdent(l); b != nil && astx.Obj(info, b) == pobj {
 							if _, isSel := ast.Unparen(l).(*ast.Ident); !isSel {
 								for _, fl := range lhsChainFields(info, l) {
-									switch fl.Name() {
+									switch c.P.FieldName(fl) {
 									case "modes", "key", "bans", "topic", "topicNick", "topicTime":
 										w = true
 									}
@@ -300,7 +304,7 @@ func c13(c *Ctx) {
 					}
 					ch, fld := gc.channelBase(l)
 					if ch != nil && fld != nil {
-						switch fld.Name() {
+						switch c.P.FieldName(fld) {
 						case "modes", "key", "bans":
 							settingGate(ch, x, "write "+astx.Str(l))
 						case "nicks":
@@ -381,7 +385,7 @@ func c13(c *Ctx) {
 				if cal != nil && cal == dsl && len(x.Args) >= 1 && !gc.isS(x.Args[0]) {
 					c.c13Oper(gc, g, x, "ending another session ("+astx.Str(x.Args[0])+")")
 				}
-				if fn.Name() == "sendAllUsers" {
+				if fname(fn) == "sendAllUsers" {
 					c.c13Oper(gc, g, x, "network-wide notice (sendAllUsers)")
 				}
 			}
@@ -617,7 +621,7 @@ func (c *Ctx) c13BecomeOper(gc *gateCtx, g *cfgx.Graph, site *ast.AssignStmt) {
 				if fid, isF := ast.Unparen(cc.Fun).(*ast.Ident); isF && authVar != nil && info.Uses[fid] == authVar {
 					ok, call = true, cc
 				}
-				if fn := astx.Callee(info, cc); fn != nil && strings.HasPrefix(fn.Name(), "authOper") {
+				if fn := astx.Callee(info, cc); fn != nil && strings.HasPrefix(fname(fn), "authOper") {
 					ok, call = true, cc
 				}
 			}
@@ -750,7 +754,11 @@ func (c *Ctx) c13BecomeServer(gc *gateCtx, g *cfgx.Graph, site *ast.AssignStmt) 
 				return true
 			}
 			sets++
-			for _, f2 := range g.FactsAt(g.VertexOf(as)) {
+			cands := []cfgx.Fact{}
+			cands = append(cands, g.FactsAt(g.VertexOf(as))...)
+			// the flag is assigned the comparison itself
+			cands = append(cands, cfgx.Fact{Expr: as.Rhs[0], Val: true})
+			for _, f2 := range cands {
 				if be, isBE := ast.Unparen(f2.Expr).(*ast.BinaryExpr); isBE && f2.Tag == nil && ((be.Op == token.EQL && f2.Val) || (be.Op == token.NEQ && !f2.Val)) {
 					isPass := func(e ast.Expr) bool {
 						se, ok := ast.Unparen(e).(*ast.SelectorExpr)
@@ -771,6 +779,7 @@ func (c *Ctx) c13BecomeServer(gc *gateCtx, g *cfgx.Graph, site *ast.AssignStmt) 
 					}
 					if (isPass(be.X) && isSvc(be.Y)) || (isPass(be.Y) && isSvc(be.X)) {
 						good++
+						break
 					}
 				}
 			}
@@ -893,7 +902,7 @@ func (c *Ctx) c13Join(gc *gateCtx, g *cfgx.Graph, site *ast.AssignStmt, l ast.Ex
 		}
 		for _, d := range defsOf(info, gc.fi.Node(), astx.Obj(info, id)) {
 			if call, ok := ast.Unparen(d).(*ast.CallExpr); ok {
-				if fn := astx.Callee(info, call); fn != nil && fn.Name() == "verifyCaptcha" && len(call.Args) == 2 && gc.isS(call.Args[0]) {
+				if fn := astx.Callee(info, call); fn != nil && fname(fn) == "verifyCaptcha" && len(call.Args) == 2 && gc.isS(call.Args[0]) {
 					return true
 				}
 			}
@@ -906,11 +915,11 @@ func (c *Ctx) c13Join(gc *gateCtx, g *cfgx.Graph, site *ast.AssignStmt, l ast.Ex
 			return false
 		}
 		fn := astx.Callee(info, call)
-		if fn == nil || fn.Name() != "banned" || len(call.Args) < 1 {
+		if fn == nil || fname(fn) != "banned" || len(call.Args) < 1 {
 			return false
 		}
 		se, ok := ast.Unparen(call.Args[0]).(*ast.SelectorExpr)
-		return ok && se.Sel.Name == "bans" && astx.Same(info, se.X, ch)
+		return ok && astx.FieldSel(info, se) != nil && astx.FieldSel(info, se) == c.P.Field("ircserver", "channel", "bans") && astx.Same(info, se.X, ch)
 	}
 	isKeyOK := func(l lit) bool {
 		be, ok := ast.Unparen(l.E).(*ast.BinaryExpr)
